@@ -267,6 +267,8 @@ type retPoint struct {
 type Engine struct {
 	wireEach    *Closure // predicate every sent frame must satisfy (vWireEach of the harness under verification)
 	inWireEach  bool
+	borrowed    []*Term // regions lent to the code under verification (vBorrowed): must not be stored in retained memory
+	qctx        []*Term // bound variables of the quantifier bodies being evaluated (outermost first)
 	oblBase     string // when set, obligations are named after this instead of the call chain
 	branchCache map[string]bool
 	mapQuantCache map[string]*Term
@@ -584,7 +586,7 @@ func (e *Engine) oblige(fr *Frame, st *State, kind string, instr ssa.Instruction
 func (e *Engine) mentionsQuant(t *Term) bool {
 	found := false
 	Walk(t, map[int]bool{}, func(x *Term) {
-		if x.op == "var" {
+		if x.op == "var" || x.op == "uf" {
 			if _, ok := e.quantVars[x.name]; ok {
 				found = true
 			}
@@ -857,6 +859,7 @@ func (e *Engine) store(fr *Frame, st *State, a *Addr, v Value, instr ssa.Instruc
 	case AHeap:
 		e.nilCheck(fr, st, a, instr)
 		ts := e.flat(v, t)
+		e.borrowCheck(fr, st, ts, t, instr, "a heap object")
 		ls := leavesOf(a.root)
 		for i, x := range ts {
 			l := ls[a.off+i]
@@ -865,6 +868,7 @@ func (e *Engine) store(fr *Frame, st *State, a *Addr, v Value, instr ssa.Instruc
 		}
 	case AGlobal:
 		ts := e.flat(v, t)
+		e.borrowCheck(fr, st, ts, t, instr, "a package-level variable")
 		root := a.global.Type().(*types.Pointer).Elem()
 		ls := leavesOf(root)
 		for i, x := range ts {
@@ -874,6 +878,9 @@ func (e *Engine) store(fr *Frame, st *State, a *Addr, v Value, instr ssa.Instruc
 		}
 	case AElem:
 		ts := e.flat(v, t)
+		if !(a.region.IsConst() && fr.isLocalRegion(a.region.val.Uint64())) {
+			e.borrowCheck(fr, st, ts, t, instr, "a slice element")
+		}
 		ls := leavesOf(a.elem)
 		for i, x := range ts {
 			l := ls[a.off+i]
@@ -2234,4 +2241,59 @@ func splitStrIte(s []*Term) (c *Term, x, y []*Term, ok bool) {
 		}
 	}
 	return c, x, y, true
+}
+
+func (fr *Frame) isLocalRegion(r uint64) bool {
+	for _, x := range fr.localRegions {
+		if x == r {
+			return true
+		}
+	}
+	return false
+}
+
+// borrowCheck: a value stored into memory that outlives the call must not be a view of a
+// borrowed buffer (vBorrowed): one obligation per slice/string leaf that could be one.
+func (e *Engine) borrowCheck(fr *Frame, st *State, ts []*Term, t types.Type, instr ssa.Instruction, where string) {
+	if len(e.borrowed) == 0 || fr.spec {
+		return
+	}
+	ls := leavesOf(t)
+	for i, l := range ls {
+		if l.kind != LRegion || i >= len(ts) || !byteView(l.typ) {
+			continue
+		}
+		for _, b := range e.borrowed {
+			if EqOff(ts[i], b) == False || regionCannotBe(ts[i], b) {
+				continue
+			}
+			// an empty slice retains nothing
+			goal := Neq(ts[i], b)
+			if i+2 < len(ts) && ls[i+2].kind == LLen {
+				goal = Or(goal, Eq(ts[i+2], BVConst(0, IntSort)))
+			}
+			e.oblige(fr, st, "borrow", instr, goal, "a view of the borrowed buffer is not stored in "+where)
+		}
+	}
+}
+
+// byteView: a slice of bytes or a string: the only types whose backing memory can be (part of)
+// a []byte buffer (no unsafe conversions in the repository).
+func byteView(t types.Type) bool {
+	if t == nil {
+		return true
+	}
+	switch u := t.Underlying().(type) {
+	case *types.Slice:
+		b, ok := u.Elem().Underlying().(*types.Basic)
+		return ok && b.Kind() == types.Uint8
+	case *types.Basic:
+		return u.Info()&types.IsString != 0
+	case *types.Pointer:
+		if a, ok := u.Elem().Underlying().(*types.Array); ok {
+			b, ok := a.Elem().Underlying().(*types.Basic)
+			return ok && b.Kind() == types.Uint8
+		}
+	}
+	return false
 }
